@@ -14,7 +14,7 @@ RULE = ("Cases: signals (all families, up to 200 samples quick / 400 thorough) x
         "sift_second_layer, mask_sift_second_layer} x caps below / equal / above what the signal yields: returns (never raises for a valid "
         "cap), samples on axis 0, components <= cap, all finite, documented extras (noise matrix, 3-D layout). "
         "Non-trivial: a binding cap (1 <= k < K) with K >= 2.")
-ASSUMPTIONS = ["ensemble variants run with nensembles 2..3, nprocesses=1 and a seeded global numpy RNG",
+ASSUMPTIONS = ["ensemble variants run with nensembles 1..3, nprocesses=1 and a seeded global numpy RNG",
                "second layer is driven with the classic sift as sift_func"]
 
 
@@ -179,7 +179,7 @@ def variant_case(draw, max_n):
            'k': draw(st.integers(0, 2**32 - 1)), 'p1': draw(st.floats(0, 1)), 'p2': draw(st.floats(0, 1))}
     return {'sig': sig, 'variant': draw(st.sampled_from(['ensemble_sift', 'complete_ensemble_sift', 'sift_second_layer',
                                                          'sift_second_layer_defaults', 'mask_sift_second_layer'])),
-            'capoff': draw(st.integers(-3, 2)), 'nens': draw(st.integers(2, 3)),
+            'capoff': draw(st.integers(-3, 2)), 'nens': draw(st.integers(1, 3)),
             'noise_mode': draw(st.sampled_from(['single', 'flip'])), 'seed': draw(st.integers(0, 2**31 - 1)),
             'noise': draw(st.sampled_from([0.05, 0.2, 1.0]))}
 
